@@ -94,6 +94,7 @@ const (
 	KHdrDel    = "header.Blacklist"
 	KStatusMod = "status.Modifier"
 	KNoop      = "noop.Modifier"
+	KURLMod    = "url.Modifier" // request only: rewrites the given parts of the request URL
 
 	KVStatus   = "status.Verifier"
 	KVHeader   = "header.Verifier"
@@ -108,7 +109,7 @@ const (
 var kindAbbrev = map[string]string{
 	KFifo: "Fg", KPrio: "Pg", KURL: "uF", KURLRe: "uR", KHdr: "hF", KHdrRe: "hR", KQS: "qF", KMethod: "mF",
 	KCookie: "cF", KPort: "pF", KProbe: "pr", KProbeReq: "pq", KProbeRes: "ps", KHdrMod: "hM", KHdrApp: "hA",
-	KHdrDel: "hD", KStatusMod: "sM", KNoop: "no",
+	KHdrDel: "hD", KStatusMod: "sM", KNoop: "no", KURLMod: "uM",
 	KVStatus: "vS", KVHeader: "vH", KVMethod: "vM", KVURL: "vU", KVQS: "vQ", KVFailure: "vF", KVPingback: "vP",
 }
 
@@ -144,7 +145,7 @@ func HasElse(k string) bool {
 // (containers support both kinds).
 func Supports(kind string, k Kind) bool {
 	switch kind {
-	case KProbeReq, KVMethod, KVURL, KVQS, KVFailure, KVPingback:
+	case KProbeReq, KURLMod, KVMethod, KVURL, KVQS, KVFailure, KVPingback:
 		return k == Req
 	case KProbeRes, KStatusMod, KVStatus:
 		return k == Res
